@@ -1,32 +1,63 @@
 // Package atomic (import path verifrt/vatomic) stands in for sync/atomic in instrumented code.
 package atomic
 
-import "github.com/olive-io/bpmn/v2/verifrt"
+import (
+	"unsafe"
 
-type (
-	Bool   = verifrt.AtomicBool
-	Int32  = verifrt.AtomicInt32
-	Int64  = verifrt.AtomicInt64
-	Uint32 = verifrt.AtomicUint32
-	Uint64 = verifrt.AtomicUint64
+	"github.com/olive-io/bpmn/v2/verifrt"
 )
 
+type (
+	Bool    = verifrt.AtomicBool
+	Int32   = verifrt.AtomicInt32
+	Int64   = verifrt.AtomicInt64
+	Uint32  = verifrt.AtomicUint32
+	Uint64  = verifrt.AtomicUint64
+	Uintptr = verifrt.AtomicUintptr
+	Value   = verifrt.AtomicValue
+)
+
+// Pointer is a thin generic shell around the runtime's untyped pointer atomic.
+type Pointer[T any] struct {
+	_ [0]*T
+	p verifrt.AtomicPtr
+}
+
+func (x *Pointer[T]) Load() *T       { return (*T)(x.p.Load()) }
+func (x *Pointer[T]) Store(val *T)   { x.p.Store(unsafe.Pointer(val)) }
+func (x *Pointer[T]) Swap(new *T) *T { return (*T)(x.p.Swap(unsafe.Pointer(new))) }
+func (x *Pointer[T]) CompareAndSwap(old, new *T) bool {
+	return x.p.CompareAndSwap(unsafe.Pointer(old), unsafe.Pointer(new))
+}
+
 var (
-	LoadInt32            = verifrt.LoadInt32
-	StoreInt32           = verifrt.StoreInt32
-	AddInt32             = verifrt.AddInt32
-	SwapInt32            = verifrt.SwapInt32
-	CompareAndSwapInt32  = verifrt.CompareAndSwapInt32
-	LoadInt64            = verifrt.LoadInt64
-	StoreInt64           = verifrt.StoreInt64
-	AddInt64             = verifrt.AddInt64
-	CompareAndSwapInt64  = verifrt.CompareAndSwapInt64
-	LoadUint32           = verifrt.LoadUint32
-	StoreUint32          = verifrt.StoreUint32
-	AddUint32            = verifrt.AddUint32
-	CompareAndSwapUint32 = verifrt.CompareAndSwapUint32
-	LoadUint64           = verifrt.LoadUint64
-	StoreUint64          = verifrt.StoreUint64
-	AddUint64            = verifrt.AddUint64
-	CompareAndSwapUint64 = verifrt.CompareAndSwapUint64
+	LoadInt32             = verifrt.LoadInt32
+	StoreInt32            = verifrt.StoreInt32
+	AddInt32              = verifrt.AddInt32
+	SwapInt32             = verifrt.SwapInt32
+	CompareAndSwapInt32   = verifrt.CompareAndSwapInt32
+	LoadInt64             = verifrt.LoadInt64
+	StoreInt64            = verifrt.StoreInt64
+	AddInt64              = verifrt.AddInt64
+	SwapInt64             = verifrt.SwapInt64
+	CompareAndSwapInt64   = verifrt.CompareAndSwapInt64
+	LoadUint32            = verifrt.LoadUint32
+	StoreUint32           = verifrt.StoreUint32
+	AddUint32             = verifrt.AddUint32
+	SwapUint32            = verifrt.SwapUint32
+	CompareAndSwapUint32  = verifrt.CompareAndSwapUint32
+	LoadUint64            = verifrt.LoadUint64
+	StoreUint64           = verifrt.StoreUint64
+	AddUint64             = verifrt.AddUint64
+	SwapUint64            = verifrt.SwapUint64
+	CompareAndSwapUint64  = verifrt.CompareAndSwapUint64
+	LoadUintptr           = verifrt.LoadUintptr
+	StoreUintptr          = verifrt.StoreUintptr
+	AddUintptr            = verifrt.AddUintptr
+	SwapUintptr           = verifrt.SwapUintptr
+	CompareAndSwapUintptr = verifrt.CompareAndSwapUintptr
+	LoadPointer           = verifrt.LoadPointer
+	StorePointer          = verifrt.StorePointer
+	SwapPointer           = verifrt.SwapPointer
+	CompareAndSwapPointer = verifrt.CompareAndSwapPointer
 )
